@@ -178,6 +178,11 @@ structure Cfg where
   /-- OnBasicAuth chain: `none` = no hook (everything accepted); the auth plugin installs `validate` -/
   basic : Option (String → String → Bool) := none
   enh : Option EnhHook := none
+  /-- false = the code as it is: after handing a packet to `client.in` the read loop waits for `<-client.connected`,
+      which `connectWithTimeOut` closes only when it RETURNS; while an enhanced authentication is in progress nothing
+      is read from the socket, so the client's AUTH answer is never seen and the exchange ends by the 5 s timeout.
+      true = the read loop goes on reading during the exchange (finding c19-enhanced-auth-deadlock). -/
+  authReadFix : Bool := false
 
 inductive Phase
   | awaitConnect      -- in the `for` loop of connectWithTimeOut, no CONNECT seen
@@ -193,6 +198,7 @@ structure Conn where
   conn : Option ConnectPkt := none
   buffered : Nat := 0           -- packets parked in `client.in` (capacity 8) after rejection
   wedged : Bool := false        -- readLoop blocked on `client.in <-` forever
+  unread : List Pkt := []       -- sent by the client but still in the socket (read loop waiting for `connected`)
   deriving Repr, Inhabited, DecidableEq
 
 /-- everything the connect phase can do -/
@@ -282,20 +288,44 @@ def connectLoop (cfg : Cfg) (c : Conn) : Pkt → Conn × List Eff
           | none => (c, [])
   | _ => ({ c with phase := .rejected }, [errConnack c.version 0x81, .statPkt])
 
+/-- a packet arriving after `connectWithTimeOut` returned false: read, counted, parked — never handled -/
+def rejectedStep (c : Conn) (p : Pkt) : Conn × List Eff :=
+  if p == .timeout then (c, []) else
+  if c.phase != .rejected then (c, []) else
+  if c.wedged then (c, [])        -- not even read from the socket
+  else
+    let (effs, go) := readLoopPre c p
+    if !go then ({ c with phase := .closed }, effs ++ [.closeSocket])
+    else if c.buffered < 8 then ({ c with buffered := c.buffered + 1 }, effs ++ [.statPkt])
+    else ({ c with wedged := true }, effs)
+
+def rejectedRun (c : Conn) : List Pkt → Conn × List Eff
+  | [] => (c, [])
+  | p :: ps =>
+    let (c1, e1) := rejectedStep c p
+    let (c2, e2) := rejectedRun c1 ps
+    (c2, e1 ++ e2)
+
 /-- one input on a connection that has not been accepted -/
 def step (cfg : Cfg) (c : Conn) (p : Pkt) : Conn × List Eff :=
   match c.phase with
   | .accepted => (c, [])            -- from here on: readHandle (the broker model)
   | .closed => (c, [])
-  | .rejected =>
-    if p == .timeout then (c, []) else
-    if c.wedged then (c, [])        -- not even read from the socket
+  | .rejected => rejectedStep c p
+  | .awaitAuth =>
+    if p == .timeout then
+      -- ErrConnectTimeOut; `connected` is closed, the read loop counts the CONNECT and reads what has piled up
+      let (c1, e1) := connectLoop cfg c .timeout
+      let (c2, e2) := rejectedRun { c1 with unread := [] } c.unread
+      (c2, e1 ++ [.statPkt] ++ e2)
+    else if !cfg.authReadFix then ({ c with unread := c.unread ++ [p] }, [])
     else
       let (effs, go) := readLoopPre c p
       if !go then ({ c with phase := .closed }, effs ++ [.closeSocket])
-      else if c.buffered < 8 then ({ c with buffered := c.buffered + 1 }, effs ++ [.statPkt])
-      else ({ c with wedged := true }, effs)
-  | _ =>
+      else
+        let (c', e2) := connectLoop cfg c p
+        (c', effs ++ e2)
+  | .awaitConnect =>
     if p == .timeout then connectLoop cfg c p else
     let (effs, go) := readLoopPre c p
     if !go then ({ c with phase := .closed }, effs ++ [.closeSocket])
